@@ -133,7 +133,7 @@ theorem mod_37_36_validate_spec (number alphabet : Str) :
 private theorem mod_97_10_checksum_ascii (n : Str) :
     ⦃⌜True⌝⦄ Gen.iso7064_mod_97_10.checksum n ⦃post⟨fun _ => ⌜AllIn isAscii n⌝, fun _ => ⌜True⌝⟩⦄ := by
   mvcgen [Gen.iso7064_mod_97_10.checksum, Gen.iso7064_mod_97_10._to_base10, -Py.asciiOnly_spec, Py.asciiOnly_pc,
-    -Py.mapM_spec, Py.mapM_pc, -Py.intOf_spec, Py.intOf_pc, -Py.intOfBase_spec, Py.intOfBase_pc]
+    -Py.mapM_spec, -Py.mapM_spec2, Py.mapM_pc, -Py.intOf_spec, Py.intOf_pc, -Py.intOfBase_spec, Py.intOfBase_pc]
   all_goals (rename_i h _ _ _ _; exact h.2)
 
 /-- `mod_97_10.validate` never raises anything but validation errors; what it accepts is ASCII
